@@ -38,7 +38,7 @@ static Ref ref_bin(int op, Ref a, Ref b) {
   case '<': r.v = x < y; break;
   case '>': r.v = x > y; break;
   case LSHIFT: if (y < 0 || y >= 31 || x < 0) r.defined = false; else r.v = x << y; break;
-  case RSHIFT: if (y < 0 || y >= 31 || x < 0) r.defined = false; else r.v = x >> y; break;
+  case RSHIFT: if (y < 0 || y >= 31) r.defined = false; else r.v = x >> y; break;   // arithmetic shift of negative values, as every C++ compiler (and C++20) computes it
   case ',': r.v = y; break;
   }
   if (r.v > 2147483647L || r.v < -2147483647L - 1) r.defined = false;   // the property's precondition: fits in int
